@@ -225,6 +225,24 @@ def run(ctx: Ctx) -> int:
     ok = len(lc) == 1 and not lc[0].value.generators[0].ifs and root_name(lc[0].targets[0]) == root_name(lc[0].value.generators[0].iter)
     ctx.oblige("C11.a", ok, lc[0] if lc else pk, "_parse_key marks every component of the dotted key" if ok else "_parse_key no longer marks every key component", fn=pk)
     # idempotence facts of the mark
+    # _parse_required_key answers "not found" for every kind of parent _parse_key can hand back (Namespace, dict,
+    # None): its membership test has to be total - hasattr is, vars(x) / x.__dict__ are not (TypeError /
+    # AttributeError for a dict parent instead of NSKeyError)
+    prk = ctx.func("_namespace:Namespace._parse_required_key")
+    unpack = [s_ for s_ in walk_local(prk) if isinstance(s_, ast.Assign) and isinstance(s_.value, ast.Call) and call_leaf(s_.value) == "_parse_key" and isinstance(s_.targets[0], ast.Tuple) and len(s_.targets[0].elts) == 3]
+    ctx.need(unpack and all(isinstance(e, ast.Name) for e in unpack[0].targets[0].elts), "_parse_required_key: leaf, parent, parent_key = self._parse_key(key)")
+    pvar = unpack[0].targets[0].elts[1].id
+    partial = []
+    for n_ in walk_local(prk):
+        if isinstance(n_, ast.Call) and any(isinstance(a_, ast.Name) and a_.id == pvar for a_ in n_.args) and call_leaf(n_) not in ("hasattr", "isinstance", "getattr", "NSKeyError"):
+            partial.append(n_)
+        if isinstance(n_, ast.Attribute) and isinstance(n_.value, ast.Name) and n_.value.id == pvar:
+            partial.append(n_)
+        if isinstance(n_, ast.Compare) and any(isinstance(c_, ast.Name) and c_.id == pvar for c_ in n_.comparators) and isinstance(n_.ops[0], (ast.In, ast.NotIn)):
+            partial.append(n_)
+    ok = not partial
+    ctx.oblige("C11.b", ok, partial[0] if partial else prk, "the leaf test of _parse_required_key is total (hasattr): a missing key is NSKeyError whatever the parent is" if ok else f"the leaf test `{ast.unparse(partial[0])[:50]}` is not defined for every parent _parse_key returns: below a dict value, `in`, `[]`, `del` raise TypeError / AttributeError instead of answering 'not found'", fn=prk, construct="required-key test total")
+
     am, dm = ctx.func("_namespace:add_clash_mark"), ctx.func("_namespace:del_clash_mark")
     mark = None
     cn_after = False
